@@ -234,6 +234,23 @@ fn gapped(base: Box<dyn Family>) -> Box<dyn Family> {
     })
 }
 
+/// listing-order variant: every package lists its candidates in descending id order (ranks, and so the
+/// expected results, are unchanged)
+fn cands_reversed(base: Box<dyn Family>) -> Box<dyn Family> {
+    Box::new(ExpandOwned {
+        label: "candidates listed in descending id order".into(),
+        base,
+        mult: 1,
+        f: Box::new(|mut c, _| {
+            for n in c.u.names.iter_mut() {
+                n.cands.reverse();
+            }
+            c.tag = format!("{} cands-reversed", c.tag);
+            c
+        }),
+    })
+}
+
 fn e1_plan(prop: P, tier: &Tier) -> Vec<PlanItem> {
     let q = *tier == Tier::Quick;
     let item = |fam: Box<dyn Family>, cfgs: Vec<(String, RunCfg)>, stride: u64| PlanItem { fam, cfgs, stride };
@@ -323,7 +340,10 @@ fn e1_plan(prop: P, tier: &Tier) -> Vec<PlanItem> {
                     named(vec![("sync", sync_cfg()), ("sync hints=All", hint_cfg(Hint::All)), ("async-fifo", async_cfg(K_CANDS | K_DEPS, false))]),
                     1,
                 ));
-                v.push(item(f4(tier), named(vec![("sync", sync_cfg())]), if q { 8 } else { 1 }));
+                // F4 lists candidates in non-ascending id order: with hints=All the hint list is then not
+                // ordered by id either (the trait does not tie the order of either list to the ids)
+                v.push(item(f4(tier), two_axes(), if q { 8 } else { 1 }));
+                v.push(item(cands_reversed(f3(1, false)), two_axes(), 1));
                 v.push(item(Box::new(F11), two_axes(), 1));
                 v.push(item(Box::new(F13), two_axes(), 1));
             }
